@@ -441,6 +441,7 @@ def run(ctx):
 
 
 META = {
+    "ready": True,
     "category": "proof",
     "technique": "Rocq proof of codec round trips over an executable model + refutation witnesses replayed on the real code + differential probe-vector comparison (vm_compute) over four real wire paths",
     "text": "decode(encode c) is proved observationally equal to c (directive for every error type, retry budget, timeout, pacing, passivation, reentrancy up to the uint32 field, stash, role, dependencies, init timeout, relocatable) for every configuration without supervisor backoff, over the remote-spawn, placement and relocation paths; the backoff triple is proved lost (not in SupervisorSpec) and the loss is replayed on real PIDs; a SpawnOn request without Role is proved to lose the role. The real code is driven end to end (real client, real RemoteSpawn handler, real toSerialize/wireSpawnOptions) and compared with the model's probe vector.",
